@@ -204,42 +204,59 @@ Theorem C06_exec_instance_is_ideal : forall tbl,
   ideal_aead RxPipeline.x_seal (RxPipeline.x_open tbl) (RxPipeline.x_sealed tbl).
 Proof. exact RxPipelineProofs.x_instance_ideal. Qed.
 
-(* the connection is closed only by reaching the integrity limit *)
-Theorem C06_closed_only_at_limit :
-  forall D unprot expand aead_open limit (ds : list D),
-  RxPipeline.closed (RxPipeline.rx_all D unprot expand aead_open limit RxPipeline.init ds) = true ->
-  limit <= RxPipeline.failures (RxPipeline.rx_all D unprot expand aead_open limit RxPipeline.init ds).
-Proof. exact RxPipelineProofs.closed_only_at_limit. Qed.
+(* the glue the harness mirrors: application.rs returns a connection error of decrypt_packet from the
+   duplicate branch too (shape read from the source; absent constant = this stops compiling) *)
+Theorem C06_dup_branch_propagates_connection_error : dup_branch_propagates_connection_error = 1.
+Proof. reflexivity. Qed.
 
-(* non-vacuity: packets 10 and 11 sealed, integrity limit 3; #0 delivered; four garbled copies of the
-   processed #0 are dropped as Duplicate although 3 failures are reached (the limit error is looked at
-   after the duplicate check); the garbled copy of the fresh #1 closes the connection (6); #1 then 5 *)
+(* the connection is closed exactly when the integrity limit has been reached -- whatever packet
+   numbers the failing datagrams carried (also forged copies of processed packet numbers) *)
+Theorem C06_closed_iff_limit :
+  forall D unprot expand aead_open limit, 0 < limit -> forall (ds : list D),
+  RxPipeline.closed (RxPipeline.rx_all D unprot expand aead_open limit RxPipeline.init ds) = true
+  <-> limit <= RxPipeline.failures (RxPipeline.rx_all D unprot expand aead_open limit RxPipeline.init ds).
+Proof. exact RxPipelineProofs.closed_iff_limit. Qed.
+
+(* once closed nothing is processed or counted *)
+Theorem C06_closed_is_final : forall D unprot expand aead_open limit s (d : D), RxPipeline.closed s = true ->
+  RxPipeline.rx D unprot expand aead_open limit s d = (s, (5%Z, None)).
+Proof. exact RxPipelineProofs.closed_is_final. Qed.
+
+(* non-vacuity: packets 10 and 11 sealed, integrity limit 3; #0 delivered; garbled copies of the
+   already processed #0: the third one reaches the limit and closes the connection (6) although its
+   packet number is a duplicate; everything after that is 5 *)
 Example C06_rxpipe_example :
   let c := [7; 8; 3; 0; 10; 2; 3; 1; 2; 3; 0; 11; 2; 3; 6; 5; 4; 1; 0;
             2; 0; 27; 1; 2; 0; 27; 1; 2; 0; 27; 1; 2; 0; 27; 1; 2; 1; 27; 1; 1; 1]%Z in
-  RxPipeline.run c = [0; 10; 3; 1; 2; 3; 1; 1; 1; 1; 6; 5]%Z.
+  RxPipeline.run c = [0; 10; 3; 1; 2; 3; 1; 1; 6; 5; 5; 5]%Z.
 Proof. vm_compute. reflexivity. Qed.
 
-(* reset map shared by several connections: whenever every mapping of the map was registered by the
-   peer for its connection ([sound], preserved by insert / remove / lookup: ResetMapProofs.sound_insert,
-   sound_remove_all, lookup_keeps_sound), a datagram is matched to connection i only if its last 16
-   bytes are a token registered for i.  (_partial: the induction over run_ops histories that
-   establishes [sound] for every reachable state is not assembled.) *)
-Theorem C06_resetmap_lookup_sound_partial : forall m regs d i, ResetMapProofs.sound m regs ->
+(* reset map shared by several connections (real PeerIdRegistry + ConnectionIdMapper through the hook;
+   registration by transport parameter / NEW_CONNECTION_ID, use, retirement by retire_prior_to +
+   acknowledged RETIRE_CONNECTION_ID, drop): whenever every mapping of the map was registered by the
+   peer for its connection ([sound]), a datagram is matched to connection i only if its last 16
+   bytes are a token registered for i.  [sound] holds in every reachable state: it is part of the
+   invariant [ResetMapProofs.inv] (inv_init; preserved by every operation inside judge_run_ops). *)
+Theorem C06_resetmap_lookup_sound : forall m regs d i, ResetMapProofs.sound m regs ->
   fst (RxPipeline.on_stateless_reset m d) = Some i ->
   exists t, RxPipeline.last16 d = Some t /\ In (i, t) regs.
 Proof. exact ResetMapProofs.lookup_sound. Qed.
 
-(* resetmap (real PeerIdRegistry + ConnectionIdMapper through the hook): the general statement
-   "judge c (run c) = true" is NOT proved (time); one concrete history is checked here: a token announced by
-   NEW_CONNECTION_ID matches only after its id is taken into use, matches once, a token registered by
-   a second connection maps to that connection, and is forgotten when the connection is dropped *)
-Example C06_resetmap_judge_example_partial :
+(* for every history of operations the executable judgement (a match names a token registered for
+   that connection earlier in the history) accepts the model's output *)
+Theorem C06_resetmap_judge_model : forall c, ResetMap.judge c (ResetMap.run c) = true.
+Proof. exact ResetMapProofs.judge_run. Qed.
+
+(* non-vacuity: a token announced by NEW_CONNECTION_ID matches only after its id is taken into use,
+   matches once; a token registered by a second connection maps to that connection and is forgotten
+   when the connection is dropped; a retired id's token is forgotten once the retirement is acknowledged *)
+Example C06_resetmap_example :
   let d := fun t : Z => ([4; 21; 64; 1; 2; 3; 4]%Z ++ map Nz (ResetMap.tok_bytes (zN t))) in
-  let c := ([0; 1; 1000; 1; 0; 1; 77]%Z ++ d 77%Z ++ [2; 0]%Z ++ d 77%Z ++ d 77%Z ++ [0; 1; 1000]%Z ++ d 1000%Z
-            ++ [3; 1]%Z ++ d 1000%Z) in
-  ResetMap.run c = [0; 0; 1; 1; 0; 2; 0; 0]%Z /\ ResetMap.judge c (ResetMap.run c) = true.
-Proof. split; vm_compute; reflexivity. Qed.
+  ResetMap.run ([0; 1; 1000; 1; 0; 1; 77]%Z ++ d 77%Z ++ [2; 0]%Z ++ d 77%Z ++ d 77%Z ++ [0; 1; 1000]%Z ++ d 1000%Z
+                ++ [3; 1]%Z ++ d 1000%Z) = [0; 0; 1; 1; 0; 2; 0; 0]%Z
+  /\ ResetMap.run ([0; 1; 1000; 5; 0; 1; 77; 2; 0; 6; 0; 1; 7; 0; 1]%Z ++ d 1000%Z ++ d 77%Z) = [0; 1; 1; 0; 0; 1]%Z
+  /\ ResetMap.run ([0; 1; 1000; 5; 0; 1; 77; 2; 0; 6; 0; 1]%Z ++ d 1000%Z) = [0; 1; 1; 1]%Z.
+Proof. repeat split; vm_compute; reflexivity. Qed.
 
 Print Assumptions C06_hp_constants.
 Print Assumptions C06_hp_roundtrip.
@@ -263,5 +280,8 @@ Print Assumptions C06_reset_only_with_peer_token.
 Print Assumptions C06_reset_judge_model.
 Print Assumptions C06_rxpipe_judge_model.
 Print Assumptions C06_exec_instance_is_ideal.
-Print Assumptions C06_closed_only_at_limit.
-Print Assumptions C06_resetmap_lookup_sound_partial.
+Print Assumptions C06_dup_branch_propagates_connection_error.
+Print Assumptions C06_closed_iff_limit.
+Print Assumptions C06_closed_is_final.
+Print Assumptions C06_resetmap_lookup_sound.
+Print Assumptions C06_resetmap_judge_model.
